@@ -49,6 +49,7 @@ def run(prog, run):
     r3(prog, run)
     r4(prog, run)
     r5(prog, run)
+    r6(prog, run)
 
 
 def r1(prog, run):
@@ -351,3 +352,49 @@ def r5(prog, run):
     else:
         run.violation(rid, 'FastTokenManager::onSasl2Authenticate#channel-binding-filter', fn.loc(),
                       'token mechanisms with channel binding are not filtered out before requesting a FAST token')
+
+
+def r6(prog, run):
+    rid = run.rule('C05.R6', 'mechanism names are parsed exactly: a parser returns a mechanism only on a path where what is left of the offered name equals a '
+                             'literal (or it delegates the unchanged name to another checked parser), so a name with a foreign suffix (e.g. SCRAM-SHA-1-PLUS) '
+                             'is never taken for an implemented mechanism and cannot slip past the disabled list', floor=6)
+    parsers = [f for f in prog.fns.values() if f.name == 'fromString' and (f.record or '').endswith('Mechanism') and 'Sasl' in (f.record or '') and not f.is_lambda]
+    if len(parsers) < 3:
+        raise AnalysisBroken('C05.R6: only %d SASL mechanism name parsers found' % len(parsers))
+    names = {f.qname for f in parsers}
+    for f in parsers:
+        accepting = 0
+        for i, n in f.returns():
+            e = n.get('e')
+            if e is None:
+                continue
+            txt = f.fmt(e, inline=False)
+            if txt in ('std::optional()', 'std::nullopt', '{}') or txt.endswith('nullopt'):
+                continue
+            accepting += 1
+            run.instance(rid)
+            deleg = [m for j in f.walk(e) for m in [f.nodes[j]] if m['k'] == 'call' and f.cname(m) in names and m.get('args')
+                     and f.nodes[f.skip(m['args'][0])].get('pidx') == 0]
+            if deleg:
+                run.ok(rid, f.loc(i), '%s delegates the unchanged name to %s' % (f.qname.split('::')[-2], f.cname(deleg[0]).split('::')[-2]), nontrivial=False)
+                continue
+            exact = False
+            for c, pol in f.atomic_assertions_at(i):
+                bo = f.binop(f.skip(c))
+                if pol is True and bo and bo[0] == '==':
+                    sides = [f.nodes[f.skip(bo[1])], f.nodes[f.skip(bo[2])]]
+                    if any(x['k'] == 'var' and x.get('pidx') == 0 for x in sides) and any(x['k'] == 'str' or x['k'] == 'index' or (x['k'] == 'call' and f.cname(x).endswith('::at')) for x in sides):
+                        exact = True
+                if pol is False and bo and bo[0] == '!=':
+                    sides = [f.nodes[f.skip(bo[1])], f.nodes[f.skip(bo[2])]]
+                    if any(x['k'] == 'var' and x.get('pidx') == 0 for x in sides) and any(x['k'] == 'str' for x in sides):
+                        exact = True
+            if exact:
+                run.ok(rid, f.loc(i), '%s returns %s only for an exactly matching name' % (f.qname.split('::')[-2], txt[-50:]))
+            else:
+                run.violation(rid, '%s#inexact-name#L%s' % (f.qname, txt[-40:]), f.loc(i),
+                              '%s returns a mechanism for names it only partially matched (%s): an unimplemented name such as <NAME>-PLUS is taken for <NAME>, '
+                              'bypassing the disabled-name filter and the "offered" requirement' % (f.qname.split('::')[-2] + '::fromString',
+                                                                                                     ', '.join(sorted(f.fmt(c, inline=False)[:40] for c, pol in f.atomic_assertions_at(i) if pol is True))[:120]))
+        if not accepting:
+            raise AnalysisBroken('C05.R6: no accepting return found in %s (parser restructured beyond what the rule follows)' % f.qname)
